@@ -343,6 +343,13 @@ func relayoutStruct(r *common.RNG, v *V, upgrade bool) *V {
 // resize returns a copy of struct s with the given section sizes (which must
 // not cut off non-zero content) and relayouted children.
 func resize(r *common.RNG, s *V, dw, pw int, upgrade bool) *V {
+	// section sizes are 16-bit fields of the pointer word
+	if dw > 0xffff {
+		dw = 0xffff
+	}
+	if pw > 0xffff {
+		pw = 0xffff
+	}
 	n := NewStruct(dw, pw)
 	copy(n.Data, s.Data)
 	for i := 0; i < pw && i < len(s.Ptrs); i++ {
